@@ -92,6 +92,64 @@ def work_pairs(chunk, st):
     st.sample({'product': chunk[0][0], 'versions': chunk[0][1][chunk[0][2]:chunk[0][2] + 3], 'against': len(chunk[0][1])}, cap=5)
 
 
+# ---- every spelling of an identification string the software parser recognises: the order of versions is the numeric one under each of
+# them, and a product's recommendations do not depend on how its name is spelt
+SPELLINGS = {'OpenSSH': ['SSH-2.0-OpenSSH_%s', 'SSH-2.0-OpenSSH-%s', 'SSH-2.0-OpenSSH.%s', 'SSH-1.99-OpenSSH_%s', 'SSH-2.0-OpenSSH_%sp1 Debian-5'],
+             'Dropbear SSH': ['SSH-2.0-dropbear_%s'], 'libssh': ['SSH-2.0-libssh-%s', 'SSH-2.0-libssh_%s'], 'RomSShell': ['SSH-2.0-RomSShell_%s'],
+             'mpSSH': ['SSH-2.0-mpSSH_%s'], 'Cisco': ['SSH-2.0-Cisco-%s'], 'tinyssh': ['SSH-2.0-tinyssh_%s'], 'PuTTY': ['SSH-2.0-PuTTY_Release_%s']}
+SPELL_VERSIONS = ['0.2', '0.9', '0.10', '0.10.4', '0.11.1', '0.4.1', '0.7.0', '0.7.3', '0.9.6', '1.0', '1.25', '2.9', '2.10', '4.62', '7.4', '8.9', '9.9', '9.10', '10.0', '10.0.2', '12.4', '15.2',
+                  '100.1', '2019.78', '2020.79', '2024.85', '2025.100']
+
+
+def work_spellings(chunk, st):
+    for product, fmt in chunk:
+        objs = {}
+        for v in SPELL_VERSIONS:
+            b = Banner.parse(fmt % v)
+            objs[v] = Software.parse(b) if b is not None else None
+        for a in SPELL_VERSIONS:
+            sa = objs[a]
+            st.execution(None, outcome=('spelling', product, sa is not None), root=('spelling', fmt, a), nontrivial=('spelling', fmt, a))
+            if sa is None or sa.version != a:
+                st.violation('spelling:version-not-extracted:%s' % product, {'banner': fmt % a, 'got': None if sa is None else sa.version})
+                continue
+            for b in SPELL_VERSIONS:
+                r, want = sa.compare_version(b), numcmp(a, b)
+                st.evaluations += 1
+                if want != 0 and sign(r) != want:
+                    st.violation('spelling:order:%s:%s' % (product, vclass(a, b)), {'banner': fmt % a, 'against': b, 'tool': r, 'numeric': want})
+                if objs[b] is not None and sign(objs[b].compare_version(a)) != -sign(r):
+                    st.violation('spelling:antisymmetry:%s' % product, {'banner': fmt, 'a': a, 'b': b})
+                if objs[b] is not None:
+                    ro = sa.compare_version(objs[b])
+                    if want != 0 and sign(ro) != want:
+                        st.violation('spelling:order-against-a-parsed-banner:%s:%s' % (product, vclass(a, b)), {'banner': fmt % a, 'against': fmt % b, 'tool': ro, 'numeric': want})
+    st.sample({'spellings': [list(x) for x in chunk[:2]]}, cap=4)
+
+
+def work_spelling_cli(chunk, st):
+    import json as _json
+    for product, v in chunk:
+        docs = {}
+        for fmt in SPELLINGS[product]:
+            srv = P.Server(banner=(fmt % v).encode(), kex=['curve25519-sha256', 'diffie-hellman-group14-sha1', 'ecdh-sha2-nistp256'], key=['ssh-rsa', 'ssh-ed25519'],
+                           enc=['aes128-cbc', '3des-cbc', 'aes256-ctr'], mac=['hmac-sha1', 'hmac-sha2-256'], host_keys=P.standard_host_keys(['ssh-rsa', 'ssh-ed25519'], rsa_bits=2048))
+            res = H.audit(srv, opts=['-n', '--skip-rate-test', '-j'])
+            st.execution(res.world, outcome=('spelling-cli', product, res.status), root=('spelling-cli', fmt, v), nontrivial=('spelling-cli', fmt, v))
+            try:
+                d = _json.loads(res.stdout)
+                docs[fmt] = (res.status, d.get('recommendations'), [(e['algorithm'], sorted(e.get('notes', {}).items())) for c in ('kex', 'key', 'enc', 'mac') for e in d.get(c, [])])
+            except ValueError:
+                docs[fmt] = (res.status, None, res.stdout[-200:])
+        ref = docs[SPELLINGS[product][0]]
+        for fmt, got in docs.items():
+            if got != ref:
+                what = 'status' if got[0] != ref[0] else 'recommendations' if got[1] != ref[1] else 'notes'
+                st.violation('spelling:%s-differ-between-spellings:%s' % (what, product), {'version': v, 'banner': fmt % v, 'reference_banner': SPELLINGS[product][0] % v,
+                                                                                           'this': str(got[1])[:300], 'reference': str(ref[1])[:300]})
+    st.sample({'spelling_cli': [list(x) for x in chunk[:2]]}, cap=4)
+
+
 def mixed_set(product):
     _, patches = PRODUCTS[product]
     vs = ['0.9', '0.10', '0.10.5', '1', '1.0', '1.2.3', '2.3.0', '2.9', '2.10', '3.9', '4.4', '6.6', '6.9', '7.4', '8.9', '9', '9.9', '9.10',
@@ -458,6 +516,8 @@ def run(tier, seed):
     check_asked_before(st)
     for product in PRODUCTS:
         check_triples(product, st)
+    par.pmap(work_spellings, [(prod, fmt) for prod in sorted(SPELLINGS) for fmt in SPELLINGS[prod]], stats=st, chunk=1)
+    par.pmap(work_spelling_cli, [(prod, v) for prod in ('OpenSSH', 'libssh') for v in ('0.5.3', '0.7.3', '0.9.6', '0.10.4', '0.11.1', '6.6', '7.4', '8.9', '9.10', '10.0')], stats=st, chunk=2)
     par.pmap(work_cli, cli_tasks(), stats=st)
     par.pmap(work_history, history_tasks(), stats=st, chunk=2)
     check_timeframes(st, tier)
